@@ -8,14 +8,14 @@ from . import sysutil as U
 
 PROP = "C03"
 PROPS_FILE = "theories/Props/C03.v"
-THEOREMS = ["c03_worklist_is_gfp", "c03_propagate_judgements", "c03_closed", "c03_exact_cover", "c03_sound"]
+THEOREMS = ["c03_worklist_is_gfp", "c03_propagate_judgements", "c03_closed", "c03_exact_cover", "c03_sound", "c03_worklist_total"]
 GEN_FILES = []
 TRUSTED = ["Coq 8.16.1 kernel + vm_compute",
            "theorems closed under the global context",
            "correspondence harness (harness/c03.py, sysutil.py, sysimpl.py): per-variable verdict of the implementation (public API partition; hook H1 / internal pipeline when exponentiation raises or times out) vs Model/Graph.verdicts, and SystemOfShapes.propagate_lin_cc_judgements called directly vs Model/Graph.propagate_judgements; both decided in Coq",
            "modelled not verified: SymPy expand/_is_zero on canonical Laurent polynomials (model: term lists with distinct monomials, zero = empty list); scipy strongly-connected components (model: own reachability closure)"]
 ASSUMPTIONS = ["inputs are canonical Laurent polynomials (distinct monomials), so 'is zero' is 'has no terms'",
-               "fuel 2n+1 of the worklist is validated by the correspondence (a None result would be a mismatch); partial correctness is what is proved"]
+               "worklist: partial correctness (gfp characterisation) and termination within the fuel 2n+1 are both proved"]
 
 HEADER_V = "From Coq Require Import List ZArith QArith Qcanon Bool.\nFrom OdeVerif Require Import Base.Corr Model.Term Model.Split Model.System Model.Graph Model.SystemExec.\nImport ListNotations.\nDefinition mism := mism_verdict.\n"
 HEADER_P = HEADER_V.replace("mism_verdict", "mism_prop")
